@@ -1104,6 +1104,29 @@ theorem glwe_keyswitch_scratch_independent {Val : Type} (cols : Nat) (zero aDft 
 
 example : (run (progKeyswitch 2 (0 : Int) 3 (· * 2) (· + ·) (· + 1) (fun j r => (r + j, j)) (· * ·)) (fun _ => 42)).1 = [0, 11] := by decide
 
+/-- `glwe_mul_plain` / `glwe_tensor_apply`: the prepared operands, the preparation temporary, the accumulator, the
+convolution buffer and the carry are all written before they are read -/
+theorem cnv_product_scratch_independent {Val : Type} (cols : Nat) (tmpA tmpB : Val) (prepL prepR : Val → Val) (cnvTmp : Val → Val → Val)
+    (cnv : Nat → Val → Val → Val → Val) (normFirst : Val → Val × Val) (normRest : Val → Val → Val) (m m' : Nat → Val) :
+    (run (progCnvProduct cols tmpA tmpB prepL prepR cnvTmp cnv normFirst normRest) m).1 =
+    (run (progCnvProduct cols tmpA tmpB prepL prepR cnvTmp cnv normFirst normRest) m').1 :=
+  write_before_read_independent _ (wbr_cnvProduct cols tmpA tmpB prepL prepR cnvTmp cnv normFirst normRest) m m'
+
+example : (run (progCnvProduct 2 (2 : Int) 3 (· + 1) (· * 2) (· + ·) (fun j a b t => a * b + t + j) (fun r => (r, 1)) (· + ·)) (fun _ => 99)).1 = [28, 29] := by
+  decide
+
+/-- block-binary blind rotation, one block (`acc_dft` from the DFT of the accumulator, `acc_add_dft` zeroed, the product,
+`svp` and inverse-DFT buffers written by their kernels) -/
+theorem blind_rotation_block_scratch_independent {Val : Type} (block : Nat) (accDft zero : Val) (vmpTmp : Nat → Val → Val)
+    (vmp : Nat → Val → Val → Val) (svp : Nat → Val → Val) (upd : Val → Val → Val → Val) (idft : Val → Val) (addSmall : Val → Val)
+    (normFirst : Val → Val × Val) (normRest : Val → Val → Val) (m m' : Nat → Val) :
+    (run (progBlindRotationBlock block accDft zero vmpTmp vmp svp upd idft addSmall normFirst normRest) m).1 =
+    (run (progBlindRotationBlock block accDft zero vmpTmp vmp svp upd idft addSmall normFirst normRest) m').1 :=
+  write_before_read_independent _ (wbr_blindRotationBlock block accDft zero vmpTmp vmp svp upd idft addSmall normFirst normRest) m m'
+
+example : (run (progBlindRotationBlock 2 (5 : Int) 0 (fun i a => a + i) (fun _ a t => a * t) (fun i r => r - i) (fun s x r => s + x - r)
+    (· * 2) (· + 1) (fun b => (b, 7)) (· + ·)) (fun _ => 1234)).1 = 6 := by decide
+
 end contents
 
 end C12
